@@ -39,7 +39,7 @@ ASSUMPTIONS = ["a connection that the hostile bytes cause to be closed is an "
                "but delivering them is accepted)"]
 REQUIRED = ["cases", "ctl_cases", "sw_cases", "hostile_units", "closed_by_input",
             "survived_input", "sibling_messages_checked", "loops_alive_checked",
-            "frames_walked", "budget_armed"]
+            "frames_walked", "budget_armed", "hostile_during_handshake"]
 TIMEOUT = {"quick": 1200, "thorough": 9000}
 
 _st = {}
@@ -99,29 +99,129 @@ class CtlRig (object):
       self.w.restart_openflow_task()
       self.new_peer()
 
-  def new_peer (self):
+  def new_peer (self, stop=None):
+    """stop: None (full handshake), "hello" (only hello exchanged) or
+    "features" (features reply sent, barrier reply still owed)."""
     c, s = self.w.connect_switch_socket("x")
     self.w.run()
     d = self.next_dpid; self.next_dpid += 1
     s.rx.clear()
+    P = dict(c=c, s=s, con=None, dpid=d, bx=None)
     s.send(ofwire.enc_message("hello", dict(xid=0)))
-    s.send(ofwire.enc_message("features_reply", dict(
-      xid=1, datapath_id=d, n_buffers=0, n_tables=1, capabilities=0, actions=0,
-      ports=[ctl.phy_port(1)])))
+    if stop == "hello":
+      self.w.run(); return P
+    return self.finish_peer(P, stop)
+
+  def finish_peer (self, P, stop=None, strict=True):
+    s = P["s"]; d = P["dpid"]
+    if P["bx"] is None:
+      s.send(ofwire.enc_message("features_reply", dict(
+        xid=1, datapath_id=d, n_buffers=0, n_tables=1, capabilities=0, actions=0,
+        ports=[ctl.phy_port(1)])))
+      self.w.run()
+      try:
+        for m in ofwire.dec_stream(bytes(s.rx)):
+          if m["name"] == "barrier_request": P["bx"] = m["xid"]
+      except ofwire.WireError:
+        pass
+      s.rx.clear()
+      if P["bx"] is None:
+        if strict: raise simnet.AdapterError("handshake: no barrier request")
+        return P
+    if stop == "features": return P
+    s.send(ofwire.enc_message("barrier_reply", dict(xid=P["bx"])))
     self.w.run()
-    bx = None
-    for m in ofwire.dec_stream(bytes(s.rx)):
-      if m["name"] == "barrier_request": bx = m["xid"]
-    s.rx.clear()
-    if bx is None: raise simnet.AdapterError("handshake: no barrier request")
-    s.send(ofwire.enc_message("barrier_reply", dict(xid=bx)))
-    self.w.run()
-    con = self.w.core.openflow.getConnection(d)
-    if con is None: raise simnet.AdapterError("handshake did not complete")
-    return dict(c=c, s=s, con=con, dpid=d)
+    P["con"] = self.w.core.openflow.getConnection(d)
+    if P["con"] is None and strict:
+      raise simnet.AdapterError("handshake did not complete")
+    return P
+
+
+def ctl_case_handshake (rig, case, rep, fire):
+  """
+  The hostile unit arrives while the connection is still in its handshake
+  (other handler table, other state).  Judged: termination, the siblings, the
+  accept/read loop; and if the connection is still open afterwards the
+  handshake can be completed and later traffic is delivered.
+  """
+  w = rig.w
+  phase = case["phase"]
+  X = rig.new_peer(stop="hello" if phase == "pre_features" else "features")
+  Y = rig.new_peer(); Z = rig.new_peer()
+  rig.pins = []
+  sib = {id(Y["c"]): [], id(Z["c"]): []}
+  n = 0x55000000
+  def sibling_round ():
+    nonlocal n
+    for P in (Y, Z):
+      n += 1
+      P["s"].send(marker_pi(n)); sib[id(P["c"])].append(n)
+  def run_budget (nbytes):
+    rig.budget.arm(400 + 60 * nbytes)
+    rep.count("budget_armed")
+    try:
+      w.run(max_steps=400)
+    finally:
+      rig.budget.disarm()
+    if rig.budget.tripped:
+      fire("processing does not terminate (controller read loop, during "
+           "the handshake)", "step budget exceeded at %s" % rig.budget.where)
+      return False
+    return True
+  rep.count("hostile_during_handshake")
+  sibling_round()
+  if not run_budget(400): return
+  X["s"].send(case["hostile"])
+  if not run_budget(len(case["hostile"]) + 200): return
+  sibling_round()
+  if not run_budget(400): return
+  closed = X["c"].closed or X["c"].shut_rd
+  if not closed:
+    # finish the handshake; traffic behind it must then come through
+    try:
+      rig.finish_peer(X, strict=False)
+    except Exception as e:
+      fire("exception while completing a handshake after hostile input", repr(e))
+      return
+    closed = X["c"].closed or X["c"].shut_rd
+    if not closed and X["con"] is not None:
+      post = [0x56000001, 0x56000002]
+      for x in post: X["s"].send(marker_pi(x))
+      if not run_budget(600): return
+      got = [x for (sk, x) in rig.pins if sk == id(X["c"])]
+      if got != post and not (X["c"].closed or X["c"].shut_rd):
+        fire("valid messages dropped on a connection that stayed open "
+             "(controller, after hostile input during the handshake)",
+             "delivered %r" % ([hex(x) for x in got],))
+        return
+  if closed: rep.count("closed_by_input")
+  else: rep.count("survived_input")
+  sibling_round()
+  if not run_budget(400): return
+  for P, name in ((Y, "Y"), (Z, "Z")):
+    got = [x for (sk, x) in rig.pins if sk == id(P["c"])]
+    rep.count("sibling_messages_checked", len(sib[id(P["c"])]))
+    if got != sib[id(P["c"])]:
+      fire("sibling connection's messages disturbed (controller)",
+           "sibling %s delivered %r expected %r" %
+           (name, [hex(x) for x in got], [hex(x) for x in sib[id(P["c"])]]))
+      return
+    if P["con"].disconnected:
+      fire("sibling connection closed (controller)", name); return
+  rep.count("loops_alive_checked")
+  try:
+    rig.new_peer()
+  except Exception as e:
+    fire("controller I/O loop no longer serves connections", repr(e)); return
+  for P in (X, Y, Z):
+    try: P["s"].close()
+    except Exception: pass
+  w.run(max_steps=200)
 
 
 def ctl_case (rig, case, rep, fire):
+  if case.get("phase", "up") != "up":
+    return ctl_case_handshake(rig, case, rep, fire)
   w = rig.w
   X = rig.new_peer(); Y = rig.new_peer(); Z = rig.new_peer()
   delivered = []
@@ -474,6 +574,9 @@ def units (side, rng, tier):
   corp, emb = corpus(side, rng)
   quick = tier == "quick"
   for k, b in corp:
+    # the message as it is: valid, but nobody asked for it (and during the
+    # handshake there may be no handler for its type at all)
+    yield "%s valid unsolicited" % k, b
     # truncation
     pts = range(1, len(b)) if (not quick or len(b) <= 40) else \
         sorted(set([1, 3, 4, 7, 8, 9, len(b) - 1] +
@@ -562,6 +665,11 @@ def run (spec, rep):
     i += 1
     if i % spec["nsub"] != spec["sub"]: continue
     case = dict(side=spec["side"], hostile=h, npre=i % 3, label=label)
+    if spec["side"] == "ctl" and len(h) < 4000:
+      # a third of the controller-side units arrive during the handshake
+      ph = (i // spec["nsub"]) % 6
+      if ph == 1: case["phase"] = "pre_features"
+      elif ph == 3: case["phase"] = "pre_barrier"
     do_case(case, rep)
     if first: rep.sample(case); first = False
 
